@@ -58,12 +58,102 @@ def recursion_free(ctx, col, rule, entries, what, allow=VIEW_ACCESSORS, exclude_
     return reach
 
 
+def _traverse_by_value(ctx, col):
+    """R-TRAVVAL: `_traverse_dfs` folded (sa/objfold.py) over every rooted tree of up to six nodes, every start node and the three callback combinations, with recording callbacks
+    supplied by the analysis: the property's clauses are read off the recorded call log."""
+    from ..objfold import Budget, ObjEval, Unsupported, small_trees
+    repo = ctx.repo
+    col.rule("R-TRAVVAL", "the traversal folded exactly over all 154 rooted trees of up to six nodes, every start node and enter+leave / enter only / leave only (2619 traversals) with recording "
+             "callbacks (enter returns idx % 3, so falsy values travel too): enter is called exactly once per node of the start node's subtree and for no other node, after its parent's call and "
+             "with the value that call returned (None for the start node); leave exactly once per such node, after all its children, with exactly their values; the start node's value is "
+             "returned -- whatever the work list looks like", floor=1, exhaustive=True)
+    d = repo.get_def("swcgeom.core.swc_utils.base._traverse_dfs")
+    helpers = {x.name: x.node for x in repo.all_defs() if x.module is d.module and x.parent is None and x.cls is None and not x.is_lambda}
+    bad = und = None
+    n_w = 0
+    for pid in small_trees(6):
+        ids = list(range(len(pid)))
+        kids = {i: [j for j in ids if pid[j] == i] for i in ids}
+        for start in ids:
+            sub, st = set(), [start]
+            while st:
+                v = st.pop()
+                sub.add(v)
+                st.extend(kids[v])
+            for mode in ("both", "enter", "leave"):
+                log = []
+
+                def enter(i, pre, log=log):
+                    log.append(("E", i, pre))
+                    return i % 3
+
+                def leave(i, ch, log=log):
+                    log.append(("L", i, sorted(ch, key=repr) if isinstance(ch, list) else ch))
+                    return i % 2
+                args = {"topology": [ids, list(pid)], "root": start, "enter": enter if mode != "leave" else None, "leave": leave if mode != "enter" else None}
+                try:
+                    ret = ObjEval(pid, helpers).run_free(d.node, args)
+                except (Unsupported, Budget) as x:
+                    und = f"{type(x).__name__}: {x}"
+                    break
+                except Exception as x:  # noqa: BLE001
+                    und = f"{type(x).__name__}: {x}"
+                    break
+                n_w += 1
+                E = [x for x in log if x[0] == "E"]
+                L = [x for x in log if x[0] == "L"]
+                why = None
+                if mode != "leave":
+                    pos = {x[1]: k for k, x in enumerate(log) if x[0] == "E"}
+                    if sorted(x[1] for x in E) != sorted(sub):
+                        why = f"enter is called for nodes {sorted(x[1] for x in E)}, the subtree of the start node is {sorted(sub)}"
+                    else:
+                        for _t, i, pre in E:
+                            want = None if i == start else pid[i] % 3
+                            if pre != want:
+                                why = f"enter({i}) receives {pre!r}; its parent's call returned {want!r}" + (" (a falsy value is dropped on the way down)" if not want and want is not None else "")
+                                break
+                            if i != start and pos[pid[i]] > pos[i]:
+                                why = f"enter({i}) is called before enter of its parent {pid[i]}"
+                                break
+                if why is None and mode != "enter":
+                    posl = {x[1]: k for k, x in enumerate(log) if x[0] == "L"}
+                    if sorted(x[1] for x in L) != sorted(sub):
+                        why = f"leave is called for nodes {sorted(x[1] for x in L)}, the subtree of the start node is {sorted(sub)}"
+                    else:
+                        for _t, i, ch in L:
+                            if ch != sorted([c % 2 for c in kids[i]], key=repr):
+                                why = f"leave({i}) receives {ch!r}; its children's calls returned {sorted(c % 2 for c in kids[i])}"
+                                break
+                            if any(posl[c] > posl[i] for c in kids[i]):
+                                why = f"leave({i}) is called before one of its children"
+                                break
+                        if why is None and ret != start % 2:
+                            why = f"the traversal returns {ret!r}; leave of the start node returned {start % 2}"
+                if why:
+                    bad = (pid, start, mode, why)
+                    break
+            if bad or und:
+                break
+        if bad or und:
+            break
+    what = "traversal = structural recursion over the start node's subtree"
+    if bad is not None:
+        pid, start, mode, why = bad
+        col.bad("R-TRAVVAL", d.qualname, d.loc(), what, f"tree with parents {pid}, start node {start}, callbacks: {mode}: {why}", stmt="travval", definite=True)
+    elif und is not None:
+        col.unresolved("R-TRAVVAL", d.qualname, d.loc(), what, f"cannot fold the traversal: {und}", stmt="travval")
+    else:
+        col.ok("R-TRAVVAL", d.qualname, d.loc(), what, f"{n_w} traversals folded", stmt="travval")
+
+
 def run(ctx, col, tier):
     repo = ctx.repo
     from ..rules import stateless as _stateless_memo
     _stateless_memo.run_memo(ctx, col)
     from ..rules import smalllints2 as _s2
     _s2.run_freshnode(ctx, col, ('swcgeom.core.tree', 'swcgeom.core.swc_utils.base', 'swcgeom.core.node'))
+    col.guard(_traverse_by_value, ctx, col)
     from ..rules import opaque as _opaque
     _opaque.run(ctx, col, ('swcgeom.core.swc_utils.base', 'swcgeom.core.tree', 'swcgeom.core.node'))
     from ..rules import idxguard as _idxguard
